@@ -392,6 +392,16 @@ class H2Connection(Protocol, TimeoutMixin):
         self.resetTimeout()
 
         remainingWindow = self.conn.local_flow_control_window(stream)
+        if remainingWindow < 0:
+            # A SETTINGS_INITIAL_WINDOW_SIZE decrease can make the window
+            # negative (RFC 7540, section 6.9.2).  Nothing can be sent on this
+            # stream until the peer reopens the window: not a DATA frame (a
+            # negative slice bound below would cut the wrong end of the chunk)
+            # and not even the empty frame that ends the stream, which h2
+            # refuses with FlowControlError.  Wait as for an empty window.
+            self._reactor.callLater(0, self._sendPrioritisedData)
+            return
+
         frameData = self._outboundStreamQueues[stream].popleft()
         maxFrameSize = min(self.conn.max_outbound_frame_size, remainingWindow)
 
